@@ -253,7 +253,7 @@ class Gen:
     def close_fwd(self, idx=None):
         r = self.r
         s, t, born = self.fwd_open.pop(r.randrange(len(self.fwd_open)) if idx is None else idx)
-        older = [x for x in self.sigs if x < s]
+        older = [x for x in self.sigs if x < s and self.sigs[x] != 'K']   # (a constant behind a marker is folded away)
         if older and r.random() < 0.4:
             # combinational forward reference to something that cannot depend on s
             d = self.use(r.choice(older), t)
